@@ -119,6 +119,7 @@ class HistoryGen:
         self.pool = []
         self.free = 0
         self.partial_axioms = []
+        self.near_pairs = []
         self.touch_stale = rng.random() < 0.03
         self.p_not = rng.choice([0.0, 0.2, 0.4, 0.6])
         self.w = {'axiom': rng.choice([1, 2, 4]), 'pattern': rng.choice([1, 2, 3]), 'prim': rng.choice([0, 1, 2]),
@@ -191,11 +192,63 @@ class HistoryGen:
             self.op(['publish_axiom'], [OP['Publish']])
         if rng.random() < 0.25:
             self.partial_notation_axiom()
+        if self.p_bad >= 0.2 and rng.random() < 0.4:
+            self.near_miss_axioms()
         if rng.random() < 0.2:
             self.op_pattern(self.ext())
             self.op(['save'], [OP['Save']])
             if rng.random() < 0.5:
                 self.op(['pop'], [OP['Pop']])
+
+    def near_miss(self, t):
+        """A term that differs from the extended term t in one small way (for adversarial modus ponens)."""
+        rng = self.rng
+        k = t[0]
+        r = rng.random()
+        if k == 'N':
+            args = list(t[2])
+            body_ids = sorted(set(m[1] for m in T.metavars(expand(t[1]))))
+            missing = [i for i in body_ids if i not in [a[0] for a in args]]
+            if missing and r < 0.4:
+                return ('N', t[1], tuple(args + [(missing[0], self.ext(depth=0))]))      # fuller map of the same definition
+            if len(args) > 1 and r < 0.6:
+                return ('N', t[1], tuple(args[:-1]))                                        # smaller map
+            if args:
+                j = rng.randrange(len(args))
+                args[j] = (args[j][0], self.near_miss(args[j][1]))
+                return ('N', t[1], tuple(args))
+            return T.imp(t, t)
+        if k in ('i', 'a'):
+            if r < 0.5: return (k, self.near_miss(t[1]), t[2])
+            return (k, t[1], self.near_miss(t[2]))
+        if k in ('E', 'M'):
+            return (k, t[1], self.near_miss(t[2]))
+        if k == 'm':
+            return T.mv(t[1], ef=tuple(t[2]) + (self.k.evars[0],)) if self.k.evars[0] not in t[2] else T.mv(t[1])
+        if k == 'y': return T.sym((t[1] + 1) % 3)
+        if k == 'e': return T.evar((t[1] + 1) % 4)
+        if k == 's': return T.svar((t[1] + 1) % 3)
+        return T.imp(t, T.BOT)
+
+    def near_miss_axioms(self):
+        """gamma: the axioms A -> B and A' where A' is a near miss of A (never equal modulo notation)."""
+        rng = self.rng
+        a = gen_ext(rng, self.k, rng.randint(1, 2), max(self.p_not, 0.5), None)
+        if rng.random() < 0.5:
+            body = rng.choice([T.imp(M0, M1), T.imp(M1, T.imp(M0, M1)), T.app(T.app(T.sym(1), M0), M1)])
+            a = ('N', body, ((0, self.ext(depth=0)),) if rng.random() < 0.5 else ((0, self.ext(depth=0)), (1, self.ext(depth=0))))
+        a2 = self.near_miss(a)
+        try:
+            ea, ea2 = expand(a), expand(a2)
+        except T.Abort:
+            return
+        if ea == ea2 or not T.wf_deep(ea) or not T.wf_deep(ea2):
+            return
+        b = self.ext(depth=1)
+        for ax in (T.imp(a, b), a2):
+            self.op_pattern(ax)
+            self.op(['publish_axiom'], [OP['Publish']])
+        self.near_pairs.append((expand(T.imp(a, b)), ea2))
 
     def partial_notation_axiom(self):
         """gamma: an axiom that is a *partial* notation application (one metavariable of the
@@ -385,6 +438,12 @@ class HistoryGen:
             self.op_load(j)
             self.op(['mp'], [OP['ModusPonens']])
             return
+        if self.near_pairs and rng.random() < 0.7:
+            maj, mnr = rng.choice(self.near_pairs)
+            if ('T', maj) in mem and ('T', mnr) in mem:
+                self.op_load(mem.index(('T', maj))); self.op_load(mem.index(('T', mnr)))
+                self.op(['mp'], [OP['ModusPonens']])
+                return
         self.source(); self.source()
         self.op(['mp'], [OP['ModusPonens']])
 
